@@ -28,7 +28,7 @@ SVG_URI = 'data:image/svg+xml;base64,' + base64.b64encode(
 OPACITY = [None, None, None, '0.5', '0.25', '1', '0']
 TRANSFORM = [None, None, None, 'rotate(10deg)', 'scale(2)', 'scale(0)', 'translate(5px, 5px)', 'matrix(1,0,0,0,0,0)',
              'scale(0.5) rotate(45deg)', 'scale(1, 0)']
-BACKGROUND = [None, None, 'red', 'rgba(0,0,255,0.5)', 'rgba(0,0,0,0)', 'linear-gradient(red, blue)',
+BACKGROUND = [None, None, 'repeating-linear-gradient(red 5px, rgba(0,0,255,0.5) 5px)', 'red', 'rgba(0,0,255,0.5)', 'rgba(0,0,0,0)', 'linear-gradient(red, blue)',
               'linear-gradient(rgba(255,0,0,0.5), blue)', 'radial-gradient(red, rgba(0,0,255,0))',
               f'url({PNG_URI})', f'url({PNG_URI}) no-repeat', f'url({PNG2_URI}) space', f'url({SVG_URI}) repeat-x',
               f'url({SVG_URI}) no-repeat, linear-gradient(red, blue)', f'url({PNG2_URI}) round']
@@ -73,6 +73,15 @@ ANCHOR_NAMES = ['b', 'a', 'Z', 'ab', 'a-1', 'z9', 'a\u00e9', '\u00fc1', '\u4e2d'
 # file names of attachments: prefixes of one another, characters below `)` and characters pydyf escapes, so that the
 # order of the /EmbeddedFiles name tree is exercised; equal names too
 ATTACHMENT_NAMES = ['a', 'a b', 'b.txt', 'a.txt', 'a(1)', 'aA', 'notes', 'notes (1)', '\u00e9.txt', 'a', 'z', 'a\\b', 'a!']
+
+
+# gradients for the places that paint an image on the stream they are called with (not in a fresh group): several of
+# them, with non-opaque stops, on one content stream
+GRADIENTS = ['linear-gradient(red, blue)', 'linear-gradient(rgba(255,0,0,0.5), blue)', 'radial-gradient(red, transparent)',
+             'linear-gradient(to right, rgba(0,0,0,0), rgba(0,0,255,0.25) 50%, red)', 'radial-gradient(blue, blue)',
+             'repeating-linear-gradient(red, rgba(0,128,0,0.5) 5px)', 'linear-gradient(transparent, transparent)',
+             # laid out as one solid colour (zero-length repeating gradient): rectangle / set_color / fill
+             'repeating-linear-gradient(red 5px, blue 5px)', 'repeating-radial-gradient(red 0, rgba(0,0,255,0.5) 0)']
 
 
 def svg_uri(rng):
@@ -125,7 +134,12 @@ def style_for(rng, inline=False):
             parts.append(f'column-rule:1px solid {colour()}')
         maybe('width', [None, None, '50px', '30px'])
         maybe('height', [None, None, None, '20px'])
-        maybe('mask-border', [None] * 7 + [f'url({PNG_URI}) 1'])
+        maybe('mask-border', [None] * 7 + [f'url({PNG_URI}) 1', f'{rng.choice(GRADIENTS)} 1'])
+        if rng.random() < 0.08:
+            parts.append(f'border:{rng.choice([3, 5])}px solid;border-image:{rng.choice(GRADIENTS)} '
+                         f'{rng.choice(["1", "1 fill", "30%", "2 / 3px"])}')
+    if rng.random() < 0.04:
+        parts.append(f'list-style-image:{rng.choice(GRADIENTS)}')
     return ';'.join(parts)
 
 
